@@ -215,6 +215,27 @@ theorem largest_component_is_component (n : Nat) (adj : Nat → List Nat) (stron
   · intro u _
     rw [argwhereEq_length, hlen]; exact hmax _
 
+/-- ★ the largest component of an adjacency matrix is a whole component, and a largest one: `largest_component_induced`
+    composed with scipy's contract for the matrix handed to scipy (square input, not forced bipartite). -/
+theorem largest_component_square_is_component (cc : CC) (m : Mat) (strong : Bool) (r : Largest)
+    (hsq : m.isSquare = true)
+    (h : getLargestConnectedComponent cc m strong false = .ok r)
+    (hc : IsLabelling m.nRow m.adj strong (cc m strong)) (hpos : 0 < m.nRow) :
+    (∃ u, u ∈ r.index) ∧
+    (∀ u ∈ r.index, ∀ v, v < m.nRow → (v ∈ r.index ↔ SameComp m.nRow m.adj strong u v)) ∧
+    (∀ u, u < m.nRow → (argwhereEq (cc m strong) ((cc m strong).getD u 0)).length ≤ r.index.length) ∧
+    r.matrix.length = r.index.length ∧ (∀ row ∈ r.matrix, row.length = r.index.length) ∧
+    ∀ a b, a < r.index.length → b < r.index.length →
+      (r.matrix.getD a []).getD b 0 = m.val (r.index.getD a 0) (r.index.getD b 0) := by
+  have hne : cc m strong ≠ [] := by
+    intro hl
+    have : (cc m strong).length = 0 := by rw [hl]; rfl
+    have := hc.1
+    omega
+  obtain ⟨L, hL, hmax, hidx, _, hlen, hm1, hm2, hm3⟩ := largest_component_induced cc m strong r hsq h hne
+  obtain ⟨c1, c2, c3⟩ := largest_component_is_component m.nRow m.adj strong (cc m strong) r.index L hc hL hmax hidx hlen
+  exact ⟨c1, c2, c3, hm1, hm2, hm3⟩
+
 example : (getLargestConnectedComponent (fun _ _ => [1, 0, 1])
       ⟨3, 3, fun i => if i = 0 then [2] else [], fun i j => if i = 0 ∧ j = 2 then 5 else 0⟩ false false).toOption.map (·.index)
     = some [0, 2] := by decide
@@ -439,8 +460,9 @@ theorem isAcyclic_directed_iff (nCC : Bool → Nat) (m : Mat) (directed : Option
     ∃ b, isAcyclic nCC m directed = .ok b ∧ (b = true ↔ ¬ HasCycle m.nRow m.adj) := by
   have hwf := Canon.wf hc hsq
   obtain ⟨labels, ⟨hlen, hlab⟩, hk⟩ := hcc
+  have hguard : (m.nRow != m.nCol) = false := by simp [hsq]
   unfold isAcyclic
-  simp only [hd]
+  simp only [hd, hguard, Bool.false_eq_true, ↓reduceIte]
   by_cases hl : (selfLoops m).length > 0
   · simp only [hl, ↓reduceIte]
     refine ⟨false, rfl, ?_⟩
@@ -496,8 +518,9 @@ theorem isAcyclic_undirected_iff (nCC : Bool → Nat) (m : Mat) (directed : Opti
     ∃ b, isAcyclic nCC m directed = .ok b ∧ (b = true ↔ ∀ C, ¬ IsSimpleCycle m.nRow m.adj false C) := by
   have hs := resolveDirected_false hd
   obtain ⟨labels, hlab, hk⟩ := hcc
+  have hguard : (m.nRow != m.nCol) = false := by simp [hsq]
   unfold isAcyclic
-  simp only [hd]
+  simp only [hd, hguard, Bool.false_eq_true, ↓reduceIte]
   by_cases hl : (selfLoops m).length > 0
   · simp only [hl, ↓reduceIte]
     refine ⟨false, rfl, ?_⟩
@@ -505,7 +528,7 @@ theorem isAcyclic_undirected_iff (nCC : Bool → Nat) (m : Mat) (directed : Opti
     obtain ⟨i, hi⟩ := List.exists_mem_of_length_pos hl
     have := selfLoop_cycles_simple m hc hsq false [i] (List.mem_map.mpr ⟨i, hi, rfl⟩)
     exact fun hall => hall [i] this
-  · simp only [hl, ↓reduceIte, Bool.false_eq_true]
+  · simp only [hl, ↓reduceIte]
     refine ⟨_, rfl, ?_⟩
     have hnoloop : ∀ u, u < m.nRow → u ∉ m.adj u := by
       intro u hu hmem
@@ -553,8 +576,9 @@ theorem getCycles_sound (fuel : Nat) (nCC : Bool → Nat) (labels : Bool → Lis
     ∀ c ∈ cs, IsSimpleCycle m.nRow m.adj d c := by
   have hwf := Canon.wf hc hsq
   have h0 := selfLoop_cycles_simple m hc hsq d
+  have hguard : (m.nRow != m.nCol) = false := by simp [hsq]
   unfold getCyclesWith at h
-  simp only [hd] at h
+  simp only [hd, hguard, Bool.false_eq_true, ↓reduceIte] at h
   split at h
   · cases h; exact h0
   · split at h
@@ -605,8 +629,9 @@ theorem getCycles_distinct (fuel : Nat) (nCC : Bool → Nat) (labels : Bool → 
       exact hab hr
     · intro ⟨h1, _⟩
       exact hab (by simpa using h1 a (by simp))
+  have hguard : (m.nRow != m.nCol) = false := by simp [hsq]
   unfold getCyclesWith at h
-  simp only [hd] at h
+  simp only [hd, hguard, Bool.false_eq_true, ↓reduceIte] at h
   split at h
   · cases h; exact hloops
   · split at h
@@ -653,7 +678,8 @@ theorem getCycles_terminates (nCC : Bool → Nat) (labels : Bool → List Nat) (
   cases hd : resolveDirected m directed with
   | error e => simp
   | ok d =>
-    simp only
+    have hguard : (m.nRow != m.nCol) = false := by simp [hsq]
+    simp only [hguard, Bool.false_eq_true, ↓reduceIte]
     split
     · simp
     · split
@@ -693,8 +719,9 @@ theorem getCycles_complete_directed (fuel : Nat) (nCC : Bool → Nat) (labels : 
   obtain ⟨hlen, hsame⟩ := hlab
   obtain ⟨hnd, hlt, hcl, _⟩ := id hC
   have hreachC := closedChain_reach hcl
+  have hguard : (m.nRow != m.nCol) = false := by simp [_hsq]
   unfold getCyclesWith at h
-  simp only [hd, Bool.true_and, Bool.not_true, Bool.false_and, Bool.false_eq_true, ↓reduceIte] at h
+  simp only [hd, hguard, Bool.true_and, Bool.not_true, Bool.false_and, Bool.false_eq_true, ↓reduceIte] at h
   -- a cycle with two nodes forces two nodes with one label
   have htwo : ∀ c0 c1, c0 ∈ C → c1 ∈ C → c0 ≠ c1 →
       (labels true).getD c0 0 = (labels true).getD c1 0 ∧ c0 < (labels true).length ∧ c1 < (labels true).length := by
@@ -841,8 +868,9 @@ theorem getCycles_empty_iff_acyclic_undirected (fuel : Nat) (nCC : Bool → Nat)
           cases this
       · exact hno3 ⟨C, hC, h3⟩
   rw [hsplit]
+  have hguard : (m.nRow != m.nCol) = false := by simp [hsq]
   unfold getCyclesWith at h
-  simp only [hd, Bool.false_and, Bool.false_eq_true, ↓reduceIte, Bool.not_false, Bool.true_and] at h
+  simp only [hd, hguard, Bool.false_and, Bool.false_eq_true, ↓reduceIte, Bool.not_false, Bool.true_and] at h
   split at h
   · -- early return: the criterion holds
     rename_i hcrit
@@ -942,30 +970,6 @@ theorem breakCycles_subgraph (fuel : Nat) (ext : BreakExt) (m : Mat) (root : Opt
   refine ⟨by rw [hlen]; simp [noLoopRows], fun i j hj => ?_⟩
   exact (mem_noLoopRows m i j).mp (hsub i j hj)
 
-/-- ★ `breakCycles_weights`: the matrix `break_cycles` returns (`breakResult m a`: kept entries with their values) has
-    the shape of the input; each of its stored entries is an off-diagonal stored entry of the input **with the same
-    weight**, and every other entry is 0: a weighted subgraph. (In the model a kept entry carries the input's value
-    because `tril + triu` copies the values and an entry is only ever deleted; the run line compares the values.) -/
-theorem breakCycles_weights (fuel : Nat) (ext : BreakExt) (m : Mat) (root : Option (List Nat))
-    (directed : Option Bool) (a : Rows)
-    (h : breakCyclesWith fuel ext m root directed = .ok (.rows a)) :
-    (breakResult m a).nRow = m.nRow ∧ (breakResult m a).nCol = m.nCol ∧
-    (∀ i j, j ∈ (breakResult m a).adj i →
-      i < m.nRow ∧ j ∈ m.adj i ∧ j ≠ i ∧ (breakResult m a).val i j = m.val i j) ∧
-    (∀ i j, j ∉ (breakResult m a).adj i → (breakResult m a).val i j = 0) := by
-  obtain ⟨_, hsub⟩ := breakCycles_subgraph fuel ext m root directed a h
-  refine ⟨rfl, rfl, fun i j hj => ?_, fun i j hj => ?_⟩
-  · have hj' : j ∈ a.row i := hj
-    obtain ⟨h1, h2, h3⟩ := hsub i j hj'
-    refine ⟨h1, h2, h3, ?_⟩
-    show (if a.has i j then m.val i j else 0) = m.val i j
-    have : a.has i j = true := by simpa [Rows.has] using hj'
-    rw [this]; rfl
-  · have hj' : j ∉ a.row i := hj
-    show (if a.has i j then m.val i j else 0) = 0
-    have : a.has i j = false := by simpa [Rows.has] using hj'
-    rw [this]; rfl
-
 /-- ★ `breakCycles_same_acyclic`: when `break_cycles` takes the early return (`if is_acyclic(adjacency, directed): return
     adjacency`) the matrix it hands back — the input — has no cycle for the resolved flag: no directed cycle when taken
     as directed (scipy's count of the strong components), no self-loop and no simple cycle with three nodes or more
@@ -992,8 +996,10 @@ theorem breakCycles_same_acyclic (fuel : Nat) (ext : BreakExt) (m : Mat) (root :
             simp only at h
             split at h
             · cases h
-            · cases h
-            · split at h <;> cases h
+            · split at h
+              · cases h
+              · cases h
+              · split at h <;> cases h
           · unfold breakUndirected at h
             simp only at h
             split at h <;> cases h
@@ -1138,8 +1144,9 @@ theorem breakCycles_directed (fuel : Nat) (ext : BreakExt) (m : Mat) (rootl : Li
     · cases h
     · rename_i hroot
       simp only [hd] at h
+      have hguard : (m.nRow != m.nCol) = false := by simp [hsq]
       unfold breakDirected at h
-      simp only at h
+      simp only [hguard, Bool.false_eq_true, ↓reduceIte] at h
       split at h
       · cases h
       · cases h
@@ -1211,9 +1218,6 @@ theorem breakCycles_directed (fuel : Nat) (ext : BreakExt) (m : Mat) (rootl : Li
             have hrn := checkRoot_ok hroot r hr
             exact e2 v ⟨r, hr, (reach_noLoop_iff m hwf hrn v).mp hrv⟩
 
-/-- the directed 3-cycle 0 → 1 → 2 → 0 from root 0: the model removes the closing edge 2 → 0, and the hypotheses of
-    `breakCycles_directed` are met (one strong component, distances 0, 1, 2) -/
-def threeCycle : Mat := ⟨3, 3, fun i => [(i + 1) % 3], fun i j => if j = (i + 1) % 3 then 1 else 0⟩
 
 example : breakCycles { nCC := fun _ => 1, labelsNoLoop := fun _ => [0, 0, 0], setOrder := fun l => sortNat l.eraseDups }
     threeCycle (some [0]) (some true) = .ok (.rows [[1], [2], []]) := by rfl
@@ -1271,6 +1275,12 @@ theorem breakCycles_directed_c10 (fuel : Nat) (ext : BreakExt) (m : Mat) (rootl 
   cases hdd
   exact hD
 
+/-- the hypotheses on the set order are met by the order the driver uses (CPython's increasing order of small node
+    numbers, `sortNat l.eraseDups`) -/
+example : (∀ l x, x ∈ (fun l => sortNat (List.eraseDups l)) l → x ∈ l) ∧
+    (∀ l x, x ∈ l → x ∈ (fun l => sortNat (List.eraseDups l)) l) ∧
+    (∀ l : List Nat, ((fun l => sortNat (List.eraseDups l)) l).length ≤ l.length) := driverSetOrder_ok
+
 /-- `breakCycles_terminates`: the fuel `breakFuel m` that `breakCycles` hands to its traversals always suffices
     (the loop of `get_distances` itself ends by property C10, `SkNet.C10.getDistances_plain_exact`; the set order must
     not invent or repeat members): `break_cycles` never answers "out of fuel". -/
@@ -1295,8 +1305,9 @@ theorem breakCycles_terminates (ext : BreakExt) (m : Mat) (root : Option (List N
         split
         · simp
         · -- directed
+          have hguard : (m.nRow != m.nCol) = false := by simp [hsq]
           unfold breakDirected
-          simp only
+          simp only [hguard, Bool.false_eq_true, ↓reduceIte]
           obtain ⟨d0, hd0, _⟩ := distancesFrom_isHopDist m hb1 rootl (checkRoot_ok hroot)
           split
           · simp
@@ -1329,31 +1340,7 @@ theorem breakCycles_terminates (ext : BreakExt) (m : Mat) (root : Option (List N
 
 /-! ### several roots: reachability is kept from the root *set*, not from each root -/
 
-/-- the 2-cycle 0 ⇄ 1 -/
-def twoCycle : Mat :=
-  ⟨2, 2, fun i => if i = 0 then [1] else if i = 1 then [0] else [],
-    fun i j => if (i = 0 ∧ j = 1) ∨ (i = 1 ∧ j = 0) then 1 else 0⟩
-
-theorem twoCycle_canon : twoCycle.Canon := by
-  intro i j hi
-  have hi' : i < 2 := hi
-  match i, hi' with
-  | 0, _ =>
-    simp only [twoCycle, ↓reduceIte, List.mem_singleton, true_and, Nat.zero_ne_one, false_and, or_false]
-    constructor
-    · intro h; subst h; exact ⟨by decide, by decide⟩
-    · intro ⟨_, h⟩
-      apply Classical.byContradiction
-      intro hne
-      simp [hne] at h
-  | 1, _ =>
-    simp only [twoCycle, Nat.succ_ne_zero, ↓reduceIte, List.mem_singleton, false_and, true_and, false_or]
-    constructor
-    · intro h; subst h; exact ⟨by decide, by decide⟩
-    · intro ⟨_, h⟩
-      apply Classical.byContradiction
-      intro hne
-      simp [hne] at h
+example : twoCycle.Canon := twoCycle_canon
 
 /-- The stronger, per-root reading of "keeps every node reachable from the root reachable": every node that *a given*
     root of the list reaches is still reached by *that* root. -/
@@ -1394,16 +1381,7 @@ theorem breakCycles_reach_per_root_false : ¬ breakCycles_reach_per_root_full :=
 example : twoCycle.NonNeg := by
   intro i j; show (0 : Rat) ≤ if _ then 1 else 0; split <;> decide
 
-theorem threeCycle_canon : threeCycle.Canon := by
-  intro i j _
-  simp only [threeCycle, List.mem_singleton]
-  constructor
-  · intro h; subst h
-    exact ⟨Nat.mod_lt _ (by decide), by simp⟩
-  · intro ⟨_, h⟩
-    apply Classical.byContradiction
-    intro hne
-    simp [hne] at h
+example : threeCycle.Canon := threeCycle_canon
 
 example : threeCycle.NonNeg := by
   intro i j; show (0 : Rat) ≤ if _ then 1 else 0; split <;> decide
